@@ -16,6 +16,7 @@ import Yld.Proofs.Program
 import Yld.Proofs.ClauseOK
 import Yld.Proofs.PyTop
 import Yld.Proofs.PyDeep
+import Yld.Proofs.Activation
 import Std.Data.String.ToNat
 namespace Yld.C01
 
@@ -135,5 +136,29 @@ theorem queried_predicate_from_its_text (cfg : Cfg) (hdefs : DefsPyOK cfg.defs) 
 theorem python_mode_is_compiled_mode (cfg : Cfg) (hdefs : DefsPyOK cfg.defs) (f : Nat) (name : String) (args : List Term) :
     queryD cfg f name args = query cfg f name args :=
   queryD_eq cfg hdefs f name args
+
+/-- **The activation the generated code performs is the textbook activation, observationally.**
+    Identifying a once-occurring plain head variable with the call's argument (no new variable, no
+    unification) instead of allocating a variable for it and unifying changes which cells are
+    allocated and how the binding chains look, but not what the consumer of a query records (the
+    arguments resolved at every depth, variables numbered by first occurrence) nor how the query ends
+    — for every well-formed engine state, query over allocated variables, schedule and fuel,
+    provided neither run is cut off by the fuel or creates a cyclic term. Together with
+    `compiled_program_is_reference` (generated code = reference bodies under the generated
+    activation) this takes the generated code all the way to the textbook semantics. -/
+theorem aliased_activation_is_textbook_activation (e : Engine) (hwf : e.WF) (f : Nat) (name : String) (args : List Term)
+    (hargs : ArgsScoped e args) (sched : Sched)
+    (h1 : ((e.withMode .reference).query .reference f name args sched).2.ending ≠ some .oof)
+    (h2 : ((e.withMode .refbody).query .refbody f name args sched).2.ending ≠ some .oof)
+    (hc1 : ((e.withMode .reference).query .reference f name args sched).2.cyc = false)
+    (hc2 : ((e.withMode .refbody).query .refbody f name args sched).2.cyc = false) :
+    ((e.withMode .reference).query .reference f name args sched).2.answers
+      = ((e.withMode .refbody).query .refbody f name args sched).2.answers ∧
+    ((e.withMode .reference).query .reference f name args sched).2.ending
+      = ((e.withMode .refbody).query .refbody f name args sched).2.ending :=
+  reference_eq_refbody_wf e hwf f name args hargs sched h1 h2 hc1 hc2
+
+/-- Non-vacuity of the well-formedness hypothesis: the engine as constructed is well-formed. -/
+theorem fresh_engine_is_well_formed : ({} : Engine).WF := Engine.WF.default
 
 end Yld.C01
